@@ -40,9 +40,25 @@ func (e *Engine) jsonMarshal(v Value) Value {
 	return Tuple{docRope(d), Nil{}}
 }
 
-func (e *Engine) toDoc(v Value) (*JDoc, bool) {
+func isStringType(t types.Type) bool {
+	if t == nil {
+		return false
+	}
+	b, ok := t.Underlying().(*types.Basic)
+	return ok && b.Info()&types.IsString != 0
+}
+
+func strTok(x Value) Value {
+	if d, ok := x.(*JDoc); ok {
+		return d
+	}
+	return &JDoc{Kind: "scalar", Elems: []Value{x}, Str: true}
+}
+
+func (e *Engine) toDoc(v Value) (*JDoc, bool) { return e.toDocT(v, nil) }
+
+func (e *Engine) toDocT(v Value, st types.Type) (*JDoc, bool) {
 	v = e.fv(v)
-	var st types.Type
 	if i, ok := v.(*Iface); ok {
 		st = i.T
 		// a type with its own MarshalJSON is asked to marshal itself; the result must be one JSON value
@@ -63,25 +79,47 @@ func (e *Engine) toDoc(v Value) (*JDoc, bool) {
 		}
 		v = e.fv(i.V)
 	}
+	var elemT, keyT types.Type
+	if st != nil {
+		switch u := st.Underlying().(type) {
+		case *types.Pointer:
+			elemT = u.Elem()
+		case *types.Slice:
+			elemT = u.Elem()
+		case *types.Map:
+			elemT, keyT = u.Elem(), u.Key()
+		}
+	}
 	switch x := v.(type) {
 	case *Ptr:
-		return e.toDoc(e.load(x))
+		return e.toDocT(e.load(x), elemT)
 	case Nil:
 		return &JDoc{Kind: "null"}, true
 	case *SliceV:
 		d := &JDoc{Kind: "array"}
 		for _, c := range sliceVals(x) {
-			d.Elems = append(d.Elems, e.fv(c))
+			c = e.fv(c)
+			if isStringType(elemT) {
+				c = strTok(c)
+			}
+			d.Elems = append(d.Elems, c)
 		}
 		return d, true
 	case *MapV:
-		d := &JDoc{Kind: "object"}
+		d := &JDoc{Kind: "object", StrKeys: isStringType(keyT)}
 		for i := range x.M.Keys {
 			d.Keys = append(d.Keys, x.M.Keys[i])
-			d.Elems = append(d.Elems, x.M.Vals[i])
+			el := x.M.Vals[i]
+			if isStringType(elemT) {
+				el = strTok(el)
+			}
+			d.Elems = append(d.Elems, el)
 		}
 		return d, true
 	case int64, *Term, bool:
+		if isStringType(st) {
+			return &JDoc{Kind: "scalar", Elems: []Value{x}, Str: true}, true
+		}
 		return &JDoc{Kind: "scalar", Elems: []Value{x}}, true
 	case string:
 		return &JDoc{Kind: "scalar", Elems: []Value{x}, Str: true}, true
@@ -90,7 +128,6 @@ func (e *Engine) toDoc(v Value) (*JDoc, bool) {
 			return &JDoc{Kind: "object"}, true
 		}
 	}
-	_ = st
 	unsupported("json.Marshal of %T", v)
 	return nil, false
 }
@@ -189,6 +226,7 @@ func (e *Engine) parseRope(r *Rope) *JDoc {
 					return nil
 				}
 				d.Keys = append(d.Keys, k.Elems[0])
+				d.StrKeys = true
 				d.Elems = append(d.Elems, docValue(el))
 				if pos >= len(toks) {
 					return nil
@@ -222,7 +260,7 @@ func docValue(d *JDoc) Value {
 }
 
 // jsonDocIntrinsic builds the input documents of the FromJSON harnesses (class per Appendix B).
-func (e *Engine) jsonDocIntrinsic(a []Value) Value {
+func (e *Engine) jsonDocIntrinsic(a []Value, strs bool) Value {
 	class := a[0].(int64)
 	keys, vals := sliceVals(a[1]), sliceVals(a[2])
 	bad := a[3].(int64)
@@ -233,23 +271,24 @@ func (e *Engine) jsonDocIntrinsic(a []Value) Value {
 		return docRope(&JDoc{Kind: "null"})
 	case jcScalar:
 		return docRope(&JDoc{Kind: "scalar", Elems: []Value{int64(7)}})
-	case jcArray:
+	case jcArray, jcObject:
 		d := &JDoc{Kind: "array"}
-		for i, x := range vals {
-			if int64(i) == bad {
-				d.Elems = append(d.Elems, &JDoc{Kind: "scalar", Elems: []Value{"x"}, Str: true})
-			} else {
-				d.Elems = append(d.Elems, x)
-			}
+		if class == jcObject {
+			d = &JDoc{Kind: "object", StrKeys: strs}
 		}
-		return docRope(d)
-	case jcObject:
-		d := &JDoc{Kind: "object", StrKeys: true}
 		for i, x := range vals {
-			d.Keys = append(d.Keys, keys[i])
-			if int64(i) == bad {
+			x = e.fv(x)
+			if class == jcObject {
+				d.Keys = append(d.Keys, e.fv(keys[i]))
+			}
+			switch {
+			case int64(i) == bad && strs:
+				d.Elems = append(d.Elems, int64(7)) // a number where a string is expected
+			case int64(i) == bad:
 				d.Elems = append(d.Elems, &JDoc{Kind: "scalar", Elems: []Value{"x"}, Str: true})
-			} else {
+			case strs:
+				d.Elems = append(d.Elems, strTok(x))
+			default:
 				d.Elems = append(d.Elems, x)
 			}
 		}
@@ -275,6 +314,20 @@ func (e *Engine) jsonKind(data Value) Value {
 		return int64(jcObject)
 	}
 	return int64(jcSyntax)
+}
+
+// elemFor: the Go value a JSON element decodes to for a target of type t (int or string), or false on a type mismatch.
+func elemFor(el Value, t types.Type) (Value, bool) {
+	if isStringType(t) {
+		if d, ok := el.(*JDoc); ok && d.Kind == "scalar" && d.Str {
+			return d.Elems[0], true
+		}
+		return nil, false
+	}
+	if isNumber(el) {
+		return el, true
+	}
+	return nil, false
 }
 
 func isNumber(v Value) bool {
@@ -354,10 +407,10 @@ func (e *Engine) jsonUnmarshal(data, target Value) Value {
 		}
 		var err Value = Nil{}
 		for i, el := range d.Elems {
-			if isNumber(el) {
-				cells[i] = el
+			if x, ok := elemFor(el, t.Elem()); ok {
+				cells[i] = x
 			} else if _, isNil := err.(Nil); isNil {
-				err = jsonErr("cannot unmarshal string into element of type int") // the cell keeps what it held
+				err = jsonErr("cannot unmarshal element of the wrong JSON type") // the cell keeps what it held
 			}
 		}
 		if arr == nil {
@@ -385,14 +438,21 @@ func (e *Engine) jsonUnmarshal(data, target Value) Value {
 		for i, k := range d.Keys {
 			el := d.Elems[i]
 			if !isNumber(k) {
-				unsupported("json object key that is not an integer atom")
+				unsupported("json object key that is not an atom")
+			}
+			if isStringType(t.Key()) != d.StrKeys && len(d.Keys) > 0 {
+				unsupported("json object with integer-text keys loaded into a string-keyed map or vice versa")
 			}
 			_, wantStruct := t.Elem().Underlying().(*types.Struct)
-			if !isNumber(el) && !wantStruct {
-				if _, isNil := err.(Nil); isNil {
-					err = jsonErr("cannot unmarshal string into map value of type int")
+			if !wantStruct {
+				x, ok := elemFor(el, t.Elem())
+				if !ok {
+					if _, isNil := err.(Nil); isNil {
+						err = jsonErr("cannot unmarshal map value of the wrong JSON type")
+					}
+					continue
 				}
-				continue
+				el = x
 			}
 			e.checkWriteMap(mv.M)
 			if j := e.mapSlot(mv.M, k); j >= 0 {
@@ -419,6 +479,28 @@ func (e *Engine) bytesIndex(data, sep Value) Value {
 		unsupported("bytes.Index outside the modelled use (document object, scalar needle)")
 	}
 	x := n.Elems[0]
+	if n.Str {
+		// a quoted needle can only match a whole string token (keys of a string-keyed object, string values); atoms
+		// of equal width cannot contain one another. First matching token in document order wins.
+		var res Value = int64(-1)
+		type tk struct {
+			v   Value
+			pos int64
+		}
+		var toks []tk
+		for i := range d.Keys {
+			if d.StrKeys {
+				toks = append(toks, tk{d.Keys[i], int64(2*i + 1)})
+			}
+			if sd, ok := d.Elems[i].(*JDoc); ok && sd.Kind == "scalar" && sd.Str {
+				toks = append(toks, tk{sd.Elems[0], int64(2*i + 2)})
+			}
+		}
+		for j := len(toks) - 1; j >= 0; j-- {
+			res = e.ite(e.eqVals(toks[j].v, x), toks[j].pos, res)
+		}
+		return res
+	}
 	var toks []Value
 	for i := range d.Keys {
 		toks = append(toks, d.Keys[i], d.Elems[i])
